@@ -25,7 +25,8 @@ CLAIM = dict(
          "quantity is zero or source and target have the same dimension vector (convert_ok_iff, any NumOps instance, "
          "via the uniqueness of canonical base representations). The model executed at Float must agree "
          "bit-for-bit with the real convert_to on generated and (thorough) all ordered pairs of same-dimension "
-         "prelude units; an independent oracle recomputes value·F(src)/F(tgt) from the direct unit definitions.",
+         "prelude units; an independent oracle recomputes value·F(src)/F(tgt) from the direct unit definitions."
+         " A further stream converts to compound targets (products / quotients of 2-3 units, half of them coherent units only) through the interpreter: the displayed unit must be the requested unit expression as numbat itself represents it.",
     design_ref="DESIGN.md section 5 C04",
     note="Exact-arithmetic theorems; f64 rounding is covered only by the bit-exact correspondence and the "
          "tolerance oracle. The displayed `× target` form (conversion target with magnitude ≠ 1) is checked by C05's "
